@@ -175,6 +175,23 @@ func buildIntrinsics() map[string]intrinsicFn {
 		fr.r.assertPC("(<= (str.len " + s.t + ") 1073741824)")
 		return s
 	}
+	// verifNondetPayload: a byte sequence of any length that is only copied, cut and compared
+	// (no character-class constraint: sat queries with multi-megabyte lengths stay tractable)
+	m["verif:verifNondetPayload"] = func(fr *frame, a []value) value {
+		s := fr.r.nondet("bytes", labelArg(a, 0), SBytes, "", "")
+		fr.r.assertPC("(<= (str.len " + s.t + ") 1073741824)")
+		return s
+	}
+	// verifNondetToken: a non-empty string without whitespace or parentheses; only its length and
+	// identity matter (no character-class constraint is handed to the solver: the structure-aware
+	// strings.Fields / ReplaceAll intrinsics rely on the declaration instead)
+	m["verif:verifNondetToken"] = func(fr *frame, a []value) value {
+		s := fr.r.nondet("string", labelArg(a, 0), SStr, "", "")
+		fr.r.assertPC("(<= (str.len " + s.t + ") 1073741824)")
+		fr.r.assertPC("(>= (str.len " + s.t + ") 1)")
+		fr.r.tokens[s.t] = true
+		return s
+	}
 	m["verif:verifNondetOpaque"] = func(fr *frame, a []value) value {
 		s := fr.r.nondet("string", labelArg(a, 0), SStr, "", "")
 		fr.r.assertPC("(<= (str.len " + s.t + ") 1073741824)")
